@@ -22,6 +22,7 @@ global size_of usize == 8;
 //@item src/pwl/impl_infeasible_elim.rs | struct PerformanceCounter | no-debug
 //@include prelude/lp_oracle_spec.rs
 //@include prelude/forward_spec.rs
+//@include prelude/reach_spec.rs
 //@include prelude/sem_spec.rs
 //@include prelude/elim_spec.rs
 //@include prelude/sem_elim_spec.rs
